@@ -533,17 +533,28 @@ func SimAck(fn *ssa.Function, must Matcher, allow func(st *simState) string) (vi
 	// headers of loops whose body contains an attempt: a path that runs such a
 	// loop zero times has "nothing to try" (e.g. ranging over an empty list)
 	attemptLoop := map[*ssa.BasicBlock]bool{}
+	// blocks of the body of such a loop: a path that has entered the body has had something to try,
+	// so leaving the loop without an attempt (a break or continue in front of the call) is not "nothing to try"
+	attemptBody := map[*ssa.BasicBlock]bool{}
 	for _, c := range CallsIn(fn, must) {
 		cb := c.(ssa.Instruction).Block()
 		for _, h := range fn.Blocks {
 			if h != cb && h.Dominates(cb) && Reachable(cb, h) {
 				attemptLoop[h] = true
+				for _, b := range fn.Blocks {
+					if b != h && h.Dominates(b) && Reachable(b, h) && b.Dominates(cb) {
+						attemptBody[b] = true
+					}
+				}
 			}
 		}
 	}
 	res = Simulate(fn.Blocks[0].Instrs[0], false, nil, func(st *simState, in ssa.Instruction) bool {
 		if attemptLoop[in.Block()] {
 			st.Tag("attempt-loop-seen")
+		}
+		if attemptBody[in.Block()] {
+			st.Tag("attempt-body-entered")
 		}
 		if c, ok := in.(ssa.CallInstruction); ok && must(c) {
 			// a new attempt: its error value decides from here on
@@ -575,7 +586,7 @@ func SimAck(fn *ssa.Function, must Matcher, allow func(st *simState) string) (vi
 				return false
 			}
 		}
-		if !st.HasTag(last) && st.HasTag("attempt-loop-seen") {
+		if !st.HasTag(last) && st.HasTag("attempt-loop-seen") && !st.HasTag("attempt-body-entered") {
 			okReturns[ret] = true // the attempt loop ran zero times: nothing to try
 			return false
 		}
